@@ -16,6 +16,10 @@ READS = {"APRD", "FPRD", "BRD", "LRD"}
 WRITES = {"APWR", "FPWR", "BWR", "LWR"}
 
 
+class Rejected(Exception):
+    """a protocol-conformant terminal cannot accept what the master sent"""
+
+
 class TerminalModel:
     """register space of an EtherCAT slave controller; unmodelled registers
     read as fresh symbolic bytes"""
@@ -102,7 +106,11 @@ class Bus:
             cmd, out, idx, pos, offset, future = await ec.send_queue.get()
             if future.done():
                 continue
-            r = self.handle(cmd, out, idx, pos, offset)
+            try:
+                r = self.handle(cmd, out, idx, pos, offset)
+            except Rejected as ex:
+                future.set_exception(ex)
+                continue
             if r is None:
                 future.set_exception(
                     self.eth.EtherCatError("datagram was not processed"))
